@@ -78,6 +78,12 @@ CLAIMED.update({
         tech="deterministic simulation: misdelivery / eavesdropping / in-transit corruption and active tampering faults on slatepack traffic"),
 })
 
+CLAIMED.update({
+    "C20": dict(cat="exploration", ref="DESIGN.md §3 C20",
+        text="Real threads under a cooperative baton scheduler installed behind the lock-scope hooks (every wallet-lock acquisition in libwallet and api, plus node calls made outside lock scopes, is a yield point; a thread is never descheduled while it holds the wallet mutex, so the seeded choice list alone decides the interleaving and replays exactly). For each seeded scenario (T0 = full refresh pass or scan, plus 1-3 owner/foreign operations on the same wallet, node frozen during the window) all serial orders are executed from one directory snapshot to obtain the set of serial outcomes under a canonical projection, then uniform-random and PCT-style interleavings must each end in that set; a hang is reported as deadlock. Node events inside the concurrent window (tier 2 of the design) are not explored: they happen before the window.",
+        tech="deterministic simulation: cooperative baton scheduler over real threads at wallet-lock granularity, seeded random + PCT schedules, serial-outcome-set (serializability) oracle"),
+})
+
 NOT_YET = {
     "C08": "not applicable to this technique: encode/decode round-trips are pure functions of their input (no schedule, clock, fault, crash point or second party); deciding them needs structural input generation or proof, see DESIGN.md §4",
 }
